@@ -66,6 +66,7 @@ type loopContract struct {
 	modifies   []*clause
 	decreases  *clause
 	used       bool
+	merge      bool // top-level loop: the paths arriving at the loop are merged into one continuation
 }
 
 type atClause struct {
@@ -373,6 +374,11 @@ func (db *specDB) loadSpecFile(path string, pkgName string, isGo bool) error {
 			cur.loops = append(cur.loops, curLoop)
 		case "endloop":
 			curLoop = nil
+		case "merge":
+			if curLoop == nil {
+				return fmt.Errorf("%s: merge outside loop", where)
+			}
+			curLoop.merge = true
 		case "assert", "assume", "cut", "havoc":
 			// assert [tags] expr at "stmt text" #k
 			j := strings.LastIndex(rest, " at ")
